@@ -98,7 +98,7 @@ fn type_bits(t: &Type) -> u64 {
 }
 
 pub fn run(ctx: &mut Ctx) {
-    let total = ctx.q(4000, 80000);
+    let total = ctx.q(12000, 120000);
     ctx.cases("schedules", total, |ctx, idx| {
         // build a graph with 1-4 key inputs and a set of PRF / PermutationFromPRF nodes
         let c = create_context().unwrap();
@@ -304,7 +304,7 @@ pub fn run(ctx: &mut Ctx) {
     });
 
     // PRNG replay, range, layout
-    let total = ctx.q(3000, 50000);
+    let total = ctx.q(9000, 90000);
     ctx.cases("prng", total, |ctx, idx| {
         let seed = ctx.rng.seed16();
         let n_ops = ctx.rng.range(5, 60);
@@ -386,7 +386,7 @@ pub fn run(ctx: &mut Ctx) {
     });
 
     // Random / RandomPermutation nodes through the evaluator: domain + replay by seed
-    let total = ctx.q(2000, 30000);
+    let total = ctx.q(6000, 60000);
     ctx.cases("random_nodes", total, |ctx, idx| {
         let c = create_context().unwrap();
         let g = c.create_graph().unwrap();
@@ -438,7 +438,7 @@ pub fn run(ctx: &mut Ctx) {
 
     // statistics
     let mut hist: BTreeMap<String, Vec<u64>> = BTreeMap::new();
-    let blocks = ctx.q(400u64, 6000);
+    let blocks = ctx.q(1200u64, 12000);
     let moduli: Vec<u64> = vec![
         (1u64 << 63) + 1,
         3u64 << 62,
